@@ -120,9 +120,12 @@ Theorem c13_cors_as_configured : forall c parse,
 Proof. exact cors_c_sound. Qed.
 Print Assumptions c13_cors_as_configured.
 
-Theorem c13_client_kind_irrelevant : forall p q ds pats parse,
-  can_redirect_c {| rc_public := p; configured_domains := ds |} pats parse =
-  can_redirect_c {| rc_public := q; configured_domains := ds |} pats parse.
+(* two clients with the same configured entries decide alike, whatever their kind (public or with a secret) and
+   whatever the values of their other options *)
+Theorem c13_client_kind_irrelevant : forall c1 c2 pats parse,
+  configured_domains c1 = configured_domains c2 ->
+  can_redirect_c c1 pats parse = can_redirect_c c2 pats parse /\
+  cors_allowed_c c1 parse = cors_allowed_c c2 parse.
 Proof. exact client_kind_irrelevant. Qed.
 Print Assumptions c13_client_kind_irrelevant.
 
@@ -146,6 +149,6 @@ Proof. exact loopback_prefix_refuted. Qed.
 Print Assumptions c13_loopback_prefix_refuted.
 
 Example c13_public_client_nonvacuous :
-  can_redirect_c {| rc_public := true; configured_domains := [[101;120;46;99;111]] |} []
+  can_redirect_c {| rc_public := true; rc_options := []; configured_domains := [[101;120;46;99;111]] |} []
     (plain_split (https_pfx ++ [97;46;101;120;46;99;111] ++ [47;99;98])) = Some true.
 Proof. vm_compute. reflexivity. Qed.
